@@ -175,7 +175,7 @@ def parse_type(content_type):
         for param in rest.split(";"):
             (key, val) = param.split("=")
             params[key.strip()] = val.strip()
-    return (ct, params)
+    return (ct.strip(), params)
 
 
 def parse_accept_header(accept):
